@@ -34,6 +34,12 @@ def specs_for(ctx):
         dict(D=2, target="outside", box="log", noise="specified", sigma=0.2, cons="band", options=dict(max_fun_evals=70, noise_final_samples=0), seed=11),
         dict(D=3, target="abs", box="mixed", noise="auto", sigma=0.1, x0="absent", options=dict(max_fun_evals=90), seed=sd + 8),
         dict(D=1, target="plateau", box="unb", noise="det", x0="absent", options=dict(max_fun_evals=40), seed=sd + 9),
+        # targets that are FLAT around the start (dead zone, constant): the GP has no signal, its prediction at the incumbent can be
+        # non-finite, refits resample their start points from the priors
+        dict(D=2, target="const", box="sym", noise="det", options=dict(max_fun_evals=60), seed=1),
+        dict(D=2, target="deadzone", box="sym", noise="det", options=dict(max_fun_evals=60), seed=1),
+        dict(D=3, target="deadzone", box="sym", noise="det", options=dict(max_fun_evals=60), seed=sd + 10),
+        dict(D=1, target="const", box="sym", noise="det", options=dict(max_fun_evals=40, search_grid_number=0, search_grid_multiplier=1), seed=sd + 11),
         # low specified noise on a steep target: the (very fine) search mesh is refined around a minimum far from the origin, so many DISTINCT
         # logged points lie within rounding distance of each other
         dict(D=1, target="sphere", box="wide", shift=[5.3], scale=1e4, noise="specified", sigma=1e-3, options=dict(max_fun_evals=90), seed=1),
